@@ -4,6 +4,28 @@
 // condition generator (govc). Compiled only with -tags verif; adds no behaviour.
 package parser
 
+import (
+	"github.com/coreruleset/crs-toolchain/v2/utils"
+)
+
+func implies(a, b bool) bool { return !a || b }
+
+func forall(lo, hi int, p func(int) bool) bool {
+	for k := lo; k < hi; k++ {
+		if !p(k) {
+			return false
+		}
+	}
+	return true
+}
+
+func iteS(c bool, a, b string) string {
+	if c {
+		return a
+	}
+	return b
+}
+
 // C03 (1): parseLine ranges over a map of directive patterns and stops at the first
 // hit. The classification is deterministic only if no line can be claimed by two of
 // them. Domain: what parseLine actually receives - one line without newline, already
@@ -17,16 +39,104 @@ package parser
 //@   opt scan-complete C17
 //@   results buf wrote
 
+// ---- C06: suffix replacement pairs ------------------------------------------------------
+
+// SpecCutReplace: one pair applied to one entry: an entry ending in `match` has that ending
+// replaced by `replacement` (deleted when the replacement is the two-character text `""`);
+// any other entry is unchanged.
+func SpecCutReplace(entry, match, replacement string) string {
+	if utils.SpecHasSuffix(entry, match) {
+		if replacement != "\"\"" {
+			return entry[:len(entry)-len(match)] + replacement
+		}
+		return entry[:len(entry)-len(match)]
+	}
+	return entry
+}
+
+// replaceSuffixes: without pairs the text is returned as it is. With pairs every line is
+// written back followed by one newline; comment/directive lines ("##!...") and blank lines
+// are copied; for every other line each iteration of the pair loop applies exactly
+// SpecCutReplace of that pair (loop 1 body clause). Several pairs are applied in map order:
+// that the result does not depend on the order is NOT provable and is recorded (C03/C06).
 //@ contract replaceSuffixes
-//@   tags C17 C19
+//@   tags C06 C17 C19
 //@   opt scan-complete C17
 //@   results out err
+//@   ensures[C06] no-pairs-identity: implies(isNil(suffixReplacements), err == nil)
+//@   loop 1 body[C06] one-pair-step: entry == SpecCutReplace(atHead(entry), match, replacement)
 
+// ---- C06: exclusions ------------------------------------------------------------------------
+// removeExclusions: after an exclude file has been processed, exactly the keys equal to one of
+// its (parsed) lines have been removed from the map; all other keys are still there (loop 1
+// invariant over all strings k); the scanner protocol holds for every exclude file.
 //@ contract removeExclusions
-//@   tags C17 C19
+//@   tags C06 C17 C19
 //@   opt scan-complete C17
+//@   loop 1 invariant[C06] 0 <= scanPos(scanner) && scanPos(scanner) <= len(scanLines(scanner))
+//@   loop 1 invariant[C06] forallStr(func(k string) bool { return mapHas(includeMap, k) == (atLoopEntry(mapHas(includeMap, k)) && forall(0, scanPos(scanner), func(j int) bool { return scanLines(scanner)[j] != k })) })
 
 //@ contract buildinclusionLineMap
 //@   tags C17 C19
 //@   opt scan-complete C17
 //@   results m defs
+
+// ---- C05: includes -----------------------------------------------------------------------------
+// buildIncludeString: the included file is parsed with NO definitions of the including file
+// (third argument nil), and the definitions it returns are discarded: nothing leaks either way.
+//@ contract buildIncludeString
+//@   tags C05
+//@   results out err
+//@   checks[C05] definitions-not-shared: called(parseFile) && isNil(argOf(parseFile, 2))
+
+// SpecBlockWith: `base` followed by xs[0..n), each followed by the concatenation marker
+// (accumulated from the left, as the code writes it).
+func SpecBlockWith(base string, xs []string, n int) string {
+	if n <= 0 || n > len(xs) {
+		return base
+	}
+	return SpecBlockWith(base, xs, n-1) + xs[n-1] + "\n##!=>\n"
+}
+
+// SpecBlockMiddle: block start, prefixes, the include's own entries and, when there are
+// suffixes, one more concatenation marker.
+func SpecBlockMiddle(prefixes []string, body string, hasSuffixes bool) string {
+	if hasSuffixes {
+		return SpecBlockWith("##!> assemble\n", prefixes, len(prefixes)) + body + "##!=>\n"
+	}
+	return SpecBlockWith("##!> assemble\n", prefixes, len(prefixes)) + body
+}
+
+// mergePrefixesSuffixes: a flags line in an include file is an error (before anything else);
+// an include without prefixes and suffixes is passed through untouched (no wrapper block);
+// otherwise its entries are wrapped in a local assemble block: prefixes, the entries, the
+// suffixes, each part followed by the concatenation marker, then the block end.
+//@ contract mergePrefixesSuffixes
+//@   tags C05 C19
+//@   results r err
+//@   ensures[C05] flags-rejected: implies(len(source.Flags) > 0, err != nil && len(bufContent(r)) == 0)
+//@   ensures[C05] no-wrapper-without-affixes: implies(len(source.Flags) == 0 && len(source.Prefixes) == 0 && len(source.Suffixes) == 0, err == nil && bufContent(r) == old(bufContent(out)))
+//@   ensures[C05] local-block: implies(len(source.Flags) == 0 && (len(source.Prefixes) > 0 || len(source.Suffixes) > 0), err == nil && bufContent(r) == SpecBlockWith(SpecBlockMiddle(source.Prefixes, old(bufContent(out)), len(source.Suffixes) > 0), source.Suffixes, len(source.Suffixes))+"##!<\n")
+//@   loop 0 invariant 0 <= rangeIndex0 && rangeIndex0 <= len(source.Prefixes) && bufContent(newOut) == SpecBlockWith("##!> assemble\n", source.Prefixes, rangeIndex0) && bufContent(out) == old(bufContent(out))
+//@   loop 1 invariant 0 <= rangeIndex1 && rangeIndex1 <= len(source.Suffixes) && bufContent(newOut) == SpecBlockWith(SpecBlockMiddle(source.Prefixes, old(bufContent(out)), len(source.Suffixes) > 0), source.Suffixes, rangeIndex1)
+
+// expandDefinitions / stringFromInclusionLines: safety and termination (range loops only);
+// the include-except order is restored by an explicit sort.
+//@ contract expandDefinitions
+//@   tags C19 C03
+//@   opt termination C19
+//@   results r
+
+//@ contract stringFromInclusionLines
+//@   tags C06 C03 C19
+//@   opt termination C19
+//@   results r
+//@   checks[C03,C06] sorted-before-joined: implies(len(inclusionLines) >= 2, called(Sort))
+//@   ensures[C06] empty: implies(len(inclusionLines) == 0, r == "")
+
+//@ contract buildPairMap
+//@   tags C06 C19
+//@   opt termination C19
+//@   results r
+//@   loop 0 invariant 0 <= i && i%2 == 0 && len(list)%2 == 0
+//@   loop 0 decreases len(list) - i
